@@ -500,8 +500,31 @@ static Token *stringize(Token *hash, Token *arg) {
   // Create a new string token. We need to set some value to its
   // source location for error reporting function, so we use a macro
   // name token as a template.
-  char *s = join_tokens(arg, NULL);
-  return new_str_token(s, hash);
+  //
+  // [https://www.sigbus.info/n1570#6.10.3.2p2] A backslash is inserted
+  // before each " and \ of a string literal or character constant in
+  // the argument, but not before other backslashes.
+  int len = 3;
+  for (Token *t = arg; t->kind != TK_EOF; t = t->next)
+    len += t->len * 2 + 1;
+
+  char *buf = calloc(1, len);
+  char *p = buf;
+  *p++ = '"';
+  for (Token *t = arg; t->kind != TK_EOF; t = t->next) {
+    if (t != arg && t->has_space)
+      *p++ = ' ';
+    char last = t->len ? t->loc[t->len - 1] : 0;
+    bool is_literal = (last == '"' || last == '\'');
+    for (int i = 0; i < t->len; i++) {
+      if (is_literal && (t->loc[i] == '\\' || t->loc[i] == '"'))
+        *p++ = '\\';
+      *p++ = t->loc[i];
+    }
+  }
+  *p++ = '"';
+  *p++ = '\0';
+  return tokenize(new_file(hash->file->name, hash->file->file_no, buf));
 }
 
 // Concatenate two tokens to create a new token.
